@@ -171,7 +171,7 @@ Definition flag_nnp_var : sval := VOpaque "noNewPrivs".
     thread-sync constant, Policy what parsePolicy returned - the field Seccomp of the struct given to Unpack *)
 Definition filter_value (tsync:N) : sval :=
   VStruct "seccomp.Filter"
-    [("NoNewPrivs", flag_nnp_var); ("Flag", VNum tsync); ("Policy", VOpaque "Seccomp")].
+    [("Flag", VNum tsync); ("NoNewPrivs", flag_nnp_var); ("Policy", VOpaque "Seccomp")].
 
 Definition ref_prefix : list aev :=
   [AFlagString flag_policy_var "policy" "seccomp.yml"; AFlagBool flag_nnp_var "no-new-privs" true; AParse; AArgs].
